@@ -41,11 +41,35 @@ def gen_cases(kind, n, salt):
             b = r.choice(pool) if r.random() < 0.7 else docs.mutate(a, r, depth=1)
             cases.append(("json", a, b, r.choice(docs.ALL_OPTS)))
     elif kind == "random":
-        for _ in range(n):
-            a = docs.random_doc(r, depth=r.choice((1, 2, 3, 3, 4)))
+        for k in range(n):
+            tw = k % 5 == 4          # every fifth pair: numbers with cross-type twins (1 / 1.0 / true) on both sides
+            a = docs.random_doc(r, depth=r.choice((1, 2, 3, 3, 4)), twins=tw)
             c = r.random()
             if c < 0.70:
-                b = docs.mutate(a, r)
+                b = docs.mutate(a, r, twins=tw)
+                if tw and r.random() < 0.7:
+                    # every list with a number at its head / tail: that number becomes its cross-type twin on the
+                    # other side and the length changes in the middle (equal in Python, different as data)
+                    def twin_ends(x):
+                        if isinstance(x, dict):
+                            return {k: twin_ends(v) for k, v in x.items()}
+                        if isinstance(x, list):
+                            y = [twin_ends(v) for v in x]
+                            hit = False
+                            for pos in (0, -1):
+                                if y and isinstance(y[pos], (int, float)):
+                                    t2 = docs.mutate(y[pos], r, twins=True)
+                                    if isinstance(t2, (int, float)) and t2 == y[pos] and type(t2) is not type(y[pos]):
+                                        y[pos] = t2
+                                        hit = True
+                            if hit:
+                                y.insert(len(y) // 2 if len(y) > 1 else 1, r.choice((7, "mid", [1])))
+                            return y
+                        return x
+                    b = twin_ends(a)
+                    if not isinstance(b, (list, dict)) or r.random() < 0.3:
+                        a = [a, 1, 0] if not isinstance(a, list) else a + [1]
+                        b = twin_ends(a)
             elif c < 0.80:
                 b = docs.permute_keys(a, r)
             else:
@@ -95,7 +119,74 @@ def gen_cases(kind, n, salt):
                 a["m"][r.choice(("p2", "q2"))] = fs[2]
                 b["m"][r.choice(("r2", "s2"))] = ts[2]
             cases.append(("json", a, b, r.choice(docs.ALL_OPTS[:6])))
-    elif kind in ("csv", "pyobj", "plist"):
+    elif kind == "records":
+        # the everyday shape "list of records": mappings with a long payload, one key renamed to a SIMILAR key (its
+        # string edit needs several refinement steps), another list element changed later on
+        renames = (("name_first", "first_name"), ("colour", "kolor"), ("address", "adress"), ("ident", "id"),
+                   ("user_name", "username"), ("abcabc", "bcabca"))
+        for i in range(n):
+            def rec():
+                d = {r.choice(("id", "n", "k")): r.randint(0, 5)}
+                if r.random() < 0.8:
+                    d["payload"] = r.choice("xyz") * r.choice((3, 12, 32, 50))
+                if r.random() < 0.5:
+                    d["tags"] = [r.choice(docs.WORDS) for _ in range(r.randint(0, 3))]
+                return d
+            a = [rec() for _ in range(r.randint(1, 4))]
+            b = [dict(x) for x in a]
+            j = r.randrange(len(a))
+            old, new = r.choice(renames)
+            if r.random() < 0.5:
+                old, new = new, old
+            a[j][old] = b[j][new] = r.randint(0, 3)
+            tail = r.random()
+            if tail < 0.4:
+                a.append(r.randint(0, 3)); b.append(r.randint(4, 7))
+            elif tail < 0.6:
+                b.append(rec())
+            elif tail < 0.8 and len(b) > 1:
+                k2 = r.randrange(len(b))
+                if k2 != j:
+                    b[k2] = dict(b[k2], extra=1)
+            if r.random() < 0.3:
+                a, b = {"items": a, "n": 1}, {"items": b, "n": 1}
+            cases.append(("json", a, b, r.choice(docs.ALL_OPTS[:6])))
+    elif kind == "multiline":
+        # strings spanning several lines edited next to single-line string edits, with more (indented) content after
+        # them: formatter state carried from one string to the next, or from one call to the next, would show
+        lines = ("line one", "line two", "second", "x", "", "tail end", "line 2")
+        words = ("hello", "hellp", "alpha", "alpho", "name", "nam", "abc", "abd")
+        for i in range(n):
+            def multi():
+                return "\n".join(r.choice(lines) for _ in range(r.randint(2, 3)))
+            def block(depth):
+                d = {}
+                for k in r.sample(("a", "b", "c", "name", "text", "zzz", "other", "tail"), r.randint(2, 5)):
+                    c = r.random()
+                    if c < 0.3:
+                        d[k] = multi()
+                    elif c < 0.6:
+                        d[k] = r.choice(words)
+                    elif c < 0.8 and depth:
+                        d[k] = block(depth - 1)
+                    else:
+                        d[k] = r.randint(0, 3)
+                return d
+            a = block(2)
+            def edit(x):
+                if isinstance(x, dict):
+                    return {k: edit(v) for k, v in x.items()}
+                if isinstance(x, str) and r.random() < 0.7:
+                    if "\n" in x:
+                        parts = x.split("\n")
+                        j = r.randrange(len(parts))
+                        parts[j] = r.choice(lines)
+                        return "\n".join(parts)
+                    return r.choice(words)
+                return x
+            b = edit(a)
+            cases.append(("json", a, b, r.choice(docs.ALL_OPTS[:3])))
+    elif kind in ("csv", "pyobj", "plist", "loaded"):
         for i in range(n):
             cases.append((kind, i, None, r.choice(docs.ALL_OPTS)))
     elif kind == "huge":
@@ -121,6 +212,9 @@ def build_pair(case, salt):
     if kind == "csv":
         r = rng("csv", salt, a)
         return docs.random_csv_pair(r, opts)
+    if kind == "loaded":
+        r = rng("loaded", salt, a)
+        return docs.random_loaded_pair(r, opts)
     if kind == "pyobj":
         r = rng("pyobj", salt, a)
         return docs.random_pyobj_pair(r, opts)
